@@ -34,15 +34,14 @@ class C03(SnapCheck):
         # writes served while a snapshot is being written are not in it: they still count towards the next automatic
         # snapshot (threshold reached by writes of which some or all landed between the state copy and the end of the attempt)
         for i in range(12 if quick else 120):
-            thr = [1, 2, 3][i % 3]
+            thr = [1, 2, 3, 4][i % 4]
             s = Script("tw%d" % i, {"snapthreshold": thr, "snapinterval": 20})
-            for j in range(rng.randrange(1, 4)):
+            # the counter stays under the threshold until the attempt is over (also with the write served during it): a
+            # tick that falls into the explicit snapshot must find nothing to do, the trigger is judged in the window Z
+            for j in range(rng.randrange(0, max(1, thr - 1))):
                 s.cmd(0, "SET", "p%d" % j, str(rng.randrange(100)))
-            during = rng.randrange(1, thr + 1)          # writes during the snapshot
-            later = rng.choice([thr - during, max(0, thr - during - 1)]) if i % 4 else thr - during
+            later = thr - 1 if (i // 4) % 3 else max(0, thr - 2)      # with the late write: threshold reached / one short
             s.digest().raw("KW 0 %s" % " ".join(hx(a) for a in ["SET", "late", str(i)]), ["raw", "KW"])
-            for j in range(during - 1):
-                s.cmd(0, "SET", "more%d" % j, "1")       # (one command per snapshot window: the others follow the attempt)
             for j in range(later):
                 s.cmd(0, "SET", "after%d" % j, "2")
             s.digest().raw("Z 70", ["raw", "Z 70"]).cmd(0, "LASTSAVE").advance(3)
